@@ -1,10 +1,12 @@
 (** C14 — the Ed25519 fork is bit-compatible with standard Ed25519.
     Layer A (Model/Ed25519.v): RFC 8032 key derivation and signing byte-exact up to the group operations, the
     verifier's canonical-S test and early rejection, clamping, and entropy consumption.  Layer B: the verification
-    equation in exponent form.  The fork's limb arithmetic (scalar.go, field/, point formulas) is a primitive here,
-    tied to Z mod L and the Edwards group by differential execution only (partial). *)
+    equation in exponent form.  Layer A' (Model/Fe.v): the GF(2^255-19) limb arithmetic of field/ as the Go code
+    computes it (uint64 wrap-around, 128-bit accumulators), proved to be the field operations under the limb bounds
+    the code maintains.  The scalar limb arithmetic (scalar.go) and the point formulas and tables built on the field
+    remain primitives, tied to Z mod L and the Edwards group by differential execution only (partial). *)
 From Coq Require Import Field Bool.
-From PatVerif Require Import Model.Ed25519 Proofs.Ed25519P Model.Ecdsa Proofs.EcdsaP Model.Algebra Proofs.AlgebraP.
+From PatVerif Require Import Model.Ed25519 Proofs.Ed25519P Model.Fe Proofs.FeP Model.Ecdsa Proofs.EcdsaP Model.Algebra Proofs.AlgebraP.
 Open Scope N_scope.
 
 (** scalar.isReduced (byte-wise comparison with L-1 from the most significant byte) decides value < L,
@@ -50,4 +52,84 @@ Print Assumptions sign_verifies.
 Example is_reduced_examples :
   is_reduced (le_bytes 32 (L - 1)) = true /\ is_reduced (le_bytes 32 L) = false /\
   is_reduced (le_bytes 32 (L + 18)) = false /\ is_reduced (le_bytes 32 0) = true /\ is_reduced (repeat xff 32) = false.
+Proof. vm_compute. repeat split; reflexivity. Qed.
+
+(** ---- the field GF(2^255-19) in five 51-bit limbs (Model/Fe.v mirrors fe.go / fe_generic.go operation by operation) ----
+    [u64s]: any five uint64 limbs.  [loose]: limbs below 2^52, what Multiply and Square tolerate.  [tight]: limbs below
+    2^51 + 2^13*19, what every operation that ends in carryPropagate leaves.  Under these bounds no 64-bit or 128-bit
+    operation of the Go code wraps, and the results are the field operations on the values. *)
+Theorem field_carry : forall v, u64s v ->
+  tight (fe_carry v) /\ fe_val v = fe_val (fe_carry v) + shr51 (l4 v) * fe_p.
+Proof. exact fe_carry_spec. Qed.
+Print Assumptions field_carry.
+
+Theorem field_mul : forall a b, loose a -> loose b ->
+  tight (fe_mul a b) /\ fe_val (fe_mul a b) mod fe_p = (fe_val a * fe_val b) mod fe_p.
+Proof. exact fe_mul_spec. Qed.
+Print Assumptions field_mul.
+
+Theorem field_square : forall a, loose a ->
+  tight (fe_square a) /\ fe_val (fe_square a) mod fe_p = (fe_val a * fe_val a) mod fe_p.
+Proof. exact fe_square_spec. Qed.
+Print Assumptions field_square.
+
+Theorem field_add : forall a b, limbs_lt 9223372036854775808 a -> limbs_lt 9223372036854775808 b ->
+  tight (fe_add a b) /\ fe_val (fe_add a b) mod fe_p = (fe_val a + fe_val b) mod fe_p.
+Proof. exact fe_add_spec. Qed.
+Print Assumptions field_add.
+
+(** Subtract adds 2p limb-wise before subtracting: no limb underflows as long as b's limbs stay within 2p's *)
+Theorem field_sub : forall a b, limbs_lt 9223372036854775808 a -> limbs_lt 4503599627370458 b ->
+  tight (fe_sub a b) /\ (fe_val (fe_sub a b) + fe_val b) mod fe_p = fe_val a mod fe_p.
+Proof. exact fe_sub_spec. Qed.
+Print Assumptions field_sub.
+
+(** reduce yields THE canonical representative, for any five uint64 limbs *)
+Theorem field_reduce_canonical : forall v, u64s v ->
+  limbs_lt 2251799813685248 (fe_reduce v) /\ fe_val (fe_reduce v) = fe_val v mod fe_p.
+Proof. exact fe_reduce_spec. Qed.
+Print Assumptions field_reduce_canonical.
+
+(** Bytes is the 32-byte little-endian encoding of the canonical representative (bit 255 clear); SetBytes reads the
+    low 255 bits and inverts Bytes; Equal decides equality in the field; IsNegative is the canonical parity *)
+Theorem field_bytes_canonical : forall v, u64s v -> fe_bytes v = le_bytes 32 (fe_val v mod fe_p).
+Proof. exact fe_bytes_spec. Qed.
+Print Assumptions field_bytes_canonical.
+
+Theorem field_set_bytes : forall x, length x = 32%nat ->
+  limbs_lt 2251799813685248 (fe_set_bytes x) /\ fe_val (fe_set_bytes x) = le_val x mod 2 ^ 255.
+Proof. exact fe_set_bytes_spec. Qed.
+Print Assumptions field_set_bytes.
+
+Theorem field_set_bytes_inverts_bytes : forall v, u64s v -> fe_val (fe_set_bytes (fe_bytes v)) = fe_val v mod fe_p.
+Proof. exact fe_set_bytes_bytes. Qed.
+Print Assumptions field_set_bytes_inverts_bytes.
+
+Theorem field_equal : forall a b, u64s a -> u64s b ->
+  (fe_equal a b = true <-> fe_val a mod fe_p = fe_val b mod fe_p).
+Proof. exact fe_equal_spec. Qed.
+Print Assumptions field_equal.
+
+Theorem field_is_negative : forall a, u64s a -> fe_is_negative a = (fe_val a mod fe_p) mod 2.
+Proof. exact fe_is_negative_spec. Qed.
+Print Assumptions field_is_negative.
+
+(** the two addition chains compute the powers they are meant to: Invert is z^(p-2), Pow22523 is z^((p-5)/8), with
+    every intermediate inside the multiplication's bounds ([pw z t e]: t is loose and its value is z^e modulo p) *)
+Theorem field_invert_power : forall z, loose z -> pw z (fe_invert z) (fe_p - 2).
+Proof. exact fe_invert_spec. Qed.
+Print Assumptions field_invert_power.
+
+Theorem field_pow22523_power : forall z, loose z -> pw z (fe_pow22523 z) ((fe_p - 5) / 8).
+Proof. exact fe_pow22523_spec. Qed.
+Print Assumptions field_pow22523_power.
+
+(** the bounds are inhabited and the chains run: 2 * 2^-1 = 1, sqrt(-1)^2 = -1, and an element at the edge of [loose] *)
+Example field_examples :
+  loose (mkfe 4503599627370495 4503599627370495 4503599627370495 4503599627370495 4503599627370495) /\
+  tight fe_sqrt_m1 /\
+  fe_val (fe_reduce (fe_mul (fe_invert (mkfe 2 0 0 0 0)) (mkfe 2 0 0 0 0))) = 1 /\
+  fe_val (fe_reduce (fe_square fe_sqrt_m1)) = fe_p - 1 /\
+  fe_bytes (mkfe 18446744073709551615 18446744073709551615 18446744073709551615 18446744073709551615 18446744073709551615)
+    = le_bytes 32 ((18446744073709551615 * (1 + 2 ^ 51 + 2 ^ 102 + 2 ^ 153 + 2 ^ 204)) mod fe_p).
 Proof. vm_compute. repeat split; reflexivity. Qed.
